@@ -411,35 +411,38 @@ func BuildGenesis(r *rand.Rand, g GenCfg) types.AppState {
 		st.Commission.Coin = usdt.c.ID
 	}
 	if g.PriceSwarm {
-		// no check may depend on one price table: a few entries become free, odd, dearer or cheaper
-		pr := rand.New(rand.NewSource(r.Int63()))
-		rv := reflect.ValueOf(&st.Commission).Elem()
-		var idx []int
-		for i := 0; i < rv.NumField(); i++ {
-			if rv.Field(i).Kind() == reflect.String {
-				idx = append(idx, i)
-			}
-		}
-		for j, n := 0, 1+pr.Intn(8); j < n; j++ {
-			f := rv.Field(idx[pr.Intn(len(idx))])
-			v := bi(f.String())
-			if v == nil {
-				continue
-			}
-			switch pr.Intn(4) {
-			case 0:
-				v = new(big.Int)
-			case 1:
-				v = new(big.Int).Mul(v, big.NewInt(int64(2+pr.Intn(9))))
-			case 2:
-				v = new(big.Int).Div(v, big.NewInt([]int64{10, 1000, 1000000}[pr.Intn(3)]))
-			case 3:
-				v = new(big.Int).Add(v, big.NewInt(int64(1+pr.Intn(999))))
-			}
-			f.SetString(v.String())
-		}
+		priceSwarm(rand.New(rand.NewSource(r.Int63())), &st.Commission)
 	}
 	return st
+}
+
+// priceSwarm: no check may depend on one price table: a few entries become free, odd, dearer or cheaper.
+func priceSwarm(pr *rand.Rand, c *types.Commission) {
+	rv := reflect.ValueOf(c).Elem()
+	var idx []int
+	for i := 0; i < rv.NumField(); i++ {
+		if rv.Field(i).Kind() == reflect.String {
+			idx = append(idx, i)
+		}
+	}
+	for j, n := 0, 1+pr.Intn(8); j < n; j++ {
+		f := rv.Field(idx[pr.Intn(len(idx))])
+		v := bi(f.String())
+		if v == nil {
+			continue
+		}
+		switch pr.Intn(4) {
+		case 0:
+			v = new(big.Int)
+		case 1:
+			v = new(big.Int).Mul(v, big.NewInt(int64(2+pr.Intn(9))))
+		case 2:
+			v = new(big.Int).Div(v, big.NewInt([]int64{10, 1000, 1000000}[pr.Intn(3)]))
+		case 3:
+			v = new(big.Int).Add(v, big.NewInt(int64(1+pr.Intn(999))))
+		}
+		f.SetString(v.String())
+	}
 }
 
 // ---------------- operation generation ----------------
